@@ -80,6 +80,8 @@ def gen_plan(tape, cfg):
             o["den"] = tape.choice([1, 1, 2, 4, 3], "const.den")
             o["w"] = tape.rint(1, 6, "const.w")
             o["order"] = tape.shuffle([0, 1, 2, 3], "const.order")
+            # an unusual spelling of the number (bool / IntEnum member / int subclass) tried first
+            o["odd"] = tape.draw(4, "const.odd") if tape.chance(1, 3, "const.odd?") else 0
         elif k == "eqhash":
             o["j"] = tape.draw(len(pool), "other")
         elif k == "normalize":
@@ -89,6 +91,39 @@ def gen_plan(tape, cfg):
             o["dup"] = tape.chance(1, 4, "qo.dup")
         ops.append(o)
     return {"symbols": symbols, "pool": pool, "clients": nclients, "envs": nenv, "ops": ops}
+
+
+def _odd_int(code, value):
+    """the same number in an unusual Python spelling (None: use the plain one)"""
+    import enum
+    if code == 1 and value in (0, 1):
+        return bool(value)
+    if code == 2:
+        return enum.IntEnum("Prio", {"MEMBER": value}).MEMBER
+    if code == 3:
+        return type("MyInt", (int,), {})(value)
+    return None
+
+
+def _check_constant_accessors(c, want, where):
+    """every accessor of a shared constant reports the value itself, in its plain type and text,
+    whichever spelling reached the manager first"""
+    if want[0] == "int":
+        v = c.constant_value()
+        if type(v) is not int or repr(v) != repr(want[1]) or c.serialize() != str(want[1]):
+            raise Violation("C04:accessor:constant", "%s: Int(%d) reports value %r, text %s" % (where, want[1], v, c.serialize()))
+    elif want[0] == "bv":
+        v, w = want[1], want[2]
+        signed = v - (1 << w) if v >= (1 << (w - 1)) else v
+        got = {"constant_value": repr(c.constant_value()), "unsigned": repr(c.bv_unsigned_value()),
+               "signed": repr(c.bv_signed_value()), "bin": c.bv_bin_str(), "bin_rev": c.bv_bin_str(reverse=True),
+               "text": c.serialize(), "width": repr(c.bv_width())}
+        exp = {"constant_value": repr(v), "unsigned": repr(v), "signed": repr(signed), "bin": format(v, "0%db" % w),
+               "bin_rev": format(v, "0%db" % w)[::-1], "text": "%d_%d" % (v, w), "width": repr(w)}
+        if got != exp:
+            bad = sorted(k for k in exp if got[k] != exp[k])
+            raise Violation("C04:accessor:constant", "%s: BV(%d, %d) reports %s, expected %s" %
+                            (where, v, w, {k: got[k] for k in bad}, {k: exp[k] for k in bad}))
 
 
 def shrink_plan(plan):
@@ -414,6 +449,7 @@ def execute(plan, tape):
         if op == "bv":
             if not f.is_bv_constant() or f.constant_value() != t[1] or f.bv_width() != t[2]:
                 raise Violation("C04:accessor:constant", "%s: %s built as %s" % (where, bp.pretty(t), _s(f)))
+            _check_constant_accessors(f, ("bv", t[1], t[2]), where)
             return
         if op == "str":
             if not f.is_string_constant() or f.constant_value() != t[1]:
@@ -544,11 +580,25 @@ def execute(plan, tape):
                                             (where, fl, exact, looks))
                     probe("real_from_non_dyadic_float")
                 elif kind == "int":
-                    objs = [mgr.Int(o["num"]), mgr.Int(int(o["num"]))]
+                    odd = _odd_int(o.get("odd", 0), o["num"])
+                    if odd is not None:
+                        try:
+                            objs.append(mgr.Int(odd))
+                            probe("odd_int_spelling_accepted")
+                        except PysmtTypeError:
+                            probe("odd_int_spelling_refused")
+                    objs += [mgr.Int(o["num"]), mgr.Int(int(o["num"]))]
                     want = ("int", o["num"])
                 elif kind in ("bv", "sbv"):
                     w = o["w"]
                     v = o["num"] % (1 << w)
+                    odd = _odd_int(o.get("odd", 0), v)
+                    if odd is not None:
+                        try:
+                            objs.append(mgr.BV(odd, w))
+                            probe("odd_int_spelling_accepted")
+                        except PysmtTypeError:
+                            probe("odd_int_spelling_refused")
                     for sp in o.get("order", [0, 1, 2, 3]):
                         objs.append(_bv_spelling(mgr, v, w, sp))
                     want = ("bv", v, w)
@@ -571,6 +621,7 @@ def execute(plan, tape):
                      (want[0] == "bool" and c0.is_bool_constant() and c0.constant_value() == want[1])
                 if not ok:
                     raise Violation("C04:accessor:constant", "%s: constant %s built as %s" % (where, want, _s(c0)))
+                _check_constant_accessors(c0, want, where)
                 # a Real and an Int of equal value are different structures
                 if want[0] == "real" and want[1].denominator == 1:
                     iv = mgr.Int(int(want[1]))
@@ -581,7 +632,12 @@ def execute(plan, tape):
                 import pickle
                 src = bp.build(t, env)
                 register(ei, src, o["client"], "src", step, where)
-                cp = pickle.loads(pickle.dumps(src))
+                try:
+                    cp = pickle.loads(pickle.dumps(src))
+                except Exception as ex:
+                    # formulas hold plain data only (operator, argument nodes, numbers, strings, types)
+                    raise Violation("C04:pickle-failed", "%s: %s cannot be pickled: %s: %s" %
+                                    (where, _s(src), type(ex).__name__, str(ex)[:120]))
                 # an unpickled formula belongs to no manager; normalising it into the environment it came
                 # from gives back the original object, into another one an equal, owned, disjoint copy
                 back = mgr.normalize(cp)
